@@ -23,6 +23,80 @@ from checks import c15
 PID = "C14"
 
 
+def module_children(text):
+    """per MODULE of a written file: (name, the direct children as [kind, name] in written order)"""
+    import re
+    toks = re.findall(r'"(?:[^"\\]|\\.|"")*"|/\*.*?\*/|//[^\n]*|[^\s"]+', text, re.S)
+    mods, depth, i = [], 0, 0
+    while i < len(toks):
+        t = toks[i]
+        if t == "/begin":
+            depth += 1
+            kind = toks[i + 1]
+            if depth == 2 and kind == "MODULE":
+                mods.append((toks[i + 2], []))
+            elif depth == 3:
+                mods[-1][1].append([kind, toks[i + 2].strip('"')])
+            i += 2
+            continue
+        if t == "/end":
+            depth -= 1
+            i += 2
+            continue
+        i += 1
+    return mods
+
+
+def two_module_sort(binp, rep, thorough, docs=None):
+    """files with two MODULEs: sort() orders each module on its own (judged by IdealSortFull per module)"""
+    import json
+    import random
+    import graphlib
+    import graphmodel as gm
+    from checks import c15, mergecheck
+    rng = random.Random(vlib.seed() * 31 + 14)
+    mo = [{"id": i, "a": d, "ops": ["sort", "sort"], "want_text": True} for i, d in enumerate(docs or [])]
+    for i in range(0 if docs else 150 if thorough else 12):
+        a, b = mergecheck.random_pair(rng, rng.choice([20, 40, 80] if thorough else [20, 40]))
+        ga = graphlib.abstract_to_graph(mergecheck.to_abstract(a))
+        gb = graphlib.abstract_to_graph(mergecheck.to_abstract(b))
+        rng.shuffle(ga["elems"])
+        rng.shuffle(gb["elems"])
+        # the list of MODULEs is sorted by name as well: in every other file the first module has the greater name
+        mo.append({"id": i, "a": gm.render2(ga, gb, "m" if i % 2 else "zz"), "ops": ["sort", "sort"], "want_text": True})
+    out = graphlib.run_ops(binp, mo, "sort2")
+    nev = 0
+    for i, c in enumerate(mo):
+        r = out.get(i)
+        if r is None or "snaps" not in r:
+            vlib.tool_error(f"two-module document does not load: {(r or {}).get('load_a_error')}")
+        sn = r["snaps"]
+        if any("panic" in x for x in sn):
+            rep.violation("sort:panic:two-modules", f"sort() panicked: {[x.get('panic') for x in sn]}", {"kind": "sort2", "a": c["a"]})
+            continue
+        evs = []
+        names = [m[0] for m in module_children(sn[0]["text"])]
+        if [m[0] for m in module_children(sn[1]["text"])] != sorted(names):
+            rep.violation("sort:order:modules", f"the MODULEs {names} are not written in ascending order after sort()", {"kind": "sort2", "a": c["a"]})
+            continue
+        for k, mname in enumerate(names):
+            g0 = gm.flat(graphlib.graph_of_tree(sn[0]["tree"], gm.module_index(sn[0]["tree"], mname)))
+            g1 = gm.flat(graphlib.graph_of_tree(sn[1]["tree"], gm.module_index(sn[1]["tree"], mname)))
+            if sorted(map(json.dumps, g0["elems"])) != sorted(map(json.dumps, g1["elems"])) or sorted(map(json.dumps, g0["refs"])) != sorted(map(json.dumps, g1["refs"])):
+                rep.violation("sort:content:two-modules", f"sort() changed the content of module {k} of a file with two MODULEs", {"kind": "sort2", "a": c["a"]})
+            ws = [dict(module_children(x["text"]))[mname] for x in sn]
+            rank = {n: j for j, n in enumerate(sorted({x[1] for x in ws[0]}))}
+            ws = [[[kd, rank.get(n, -1)] for kd, n in w] for w in ws]
+            evs += [{"ev": "load", "written": ws[0]}, {"ev": "sort", "written": ws[1], "panic": False}, {"ev": "sort", "written": ws[2], "panic": False}]
+            if ws[1] != ws[2]:
+                rep.violation("sort:idempotent:two-modules", "a second sort() changes the written order", {"kind": "sort2", "a": c["a"]})
+        ok, irej = c15.ideal_accepts(evs)
+        nev += len(evs)
+        if not ok:
+            rep.violation("sort:order:two-modules", f"sort() of a file with two MODULEs violates IdealSortFull (event {irej[0]} of load/sort/sort per module)", {"kind": "sort2", "a": c["a"]})
+    return len(mo), nev
+
+
 def run(tier, selftest):
     t0 = time.time()
     rep = vlib.Reporter(PID)
@@ -50,6 +124,16 @@ def run(tier, selftest):
         evs = [json.loads(l) for l in f if l.strip()]
     nsort_tr = sum(1 for e in evs if e["ev"] == "sort")
     acc_ev, acc_tr, rej = c15.validate_trace(tp, rep)
+    # the same on the second MODULE of a file (a decoy MODULE with equally named elements stands in front)
+    tp2 = os.path.join(vlib.scratch(), "sort_trace_second.ndjson")
+    rc, lines, err = vlib.run_harness(binp, ["placement-record", "--seed", vlib.seed() + 1311, "--traces", max(6, traces // 4), "--steps", steps,
+                                             "--init", init, "--second", 1, "--sortprob", 20, "--out", tp2], timeout=900)
+    if rc != 0:
+        vlib.tool_error(f"placement-record (second module) failed: {err[-500:]}")
+    with open(tp2) as f:
+        nsort_tr += sum(1 for l in f if '"ev":"sort"' in l)
+    a2, t2, r2 = c15.validate_trace(tp2, rep)
+    acc_ev, acc_tr, rej = acc_ev + a2, acc_tr + t2, rej + r2
     # files that also hold optional singletons, IF_DATA and USER_RIGHTS (outside the implementation-shaped model, whose uid
     # compaction therefore differs from the code's): judged by the relations of the property alone
     tpx = os.path.join(vlib.scratch(), "sort_trace_extras.ndjson")
@@ -72,6 +156,8 @@ def run(tier, selftest):
                       f"history on a module with singletons / IF_DATA / USER_RIGHTS violates the relations of C14 / C15 (Trace_PlacementIdeal rejects event {d}: {json.dumps({k: bad[k] for k in bad if k != 'lists'})[:300]})",
                       {"kind": "history", "events": xev[start:end]})
         xev = xev[end:]
+
+    n2, nev2 = two_module_sort(binp, rep, thorough)
 
     binding = None
     if selftest or thorough:
@@ -112,6 +198,8 @@ def run(tier, selftest):
         "trace_events_validated": acc_ev,
         "trace_sort_events": nsort_tr,
         "trace_rejections": rej,
+        "files_with_two_modules": n2,
+        "two_module_events_judged": nev2,
         "spec_drift_notes": c15.DRIFT[:10],
     }
     if binding is not None:
@@ -119,7 +207,7 @@ def run(tier, selftest):
     for dnote in c15.DRIFT[:5]:
         print(f"SPEC-DRIFT (not a violation of C14): {dnote}")
     vlib.write_evidence(PID, tier, "model_checking", cov, [
-        "one MODULE; the order *between* kinds is only compared with the implementation-shaped model (the property only demands grouping)",
+        "one MODULE in the placement histories (files with two MODULEs are judged by IdealSortFull per module); the order *between* kinds is only compared with the implementation-shaped model (the property only demands grouping)",
         "module comments are deleted by sort() by design and are not 'elements' of the property",
         "names are compared bytewise (ASCII names in the generated cases)",
     ], time.time() - t0, rep.count_new)
@@ -127,5 +215,13 @@ def run(tier, selftest):
 
 
 def replay(path):
+    import json
+    with open(path) as f:
+        case = json.load(f)["case"]
+    if case.get("kind") == "sort2":
+        rep = vlib.Reporter(PID)
+        two_module_sort(vlib.build_harness(), rep, False, [case["a"]])
+        print("replay:", "violation reproduced" if rep.new else "no violation")
+        return rep.exit_code()
     c15.PID = PID
     return c15.replay(path)
